@@ -24,8 +24,14 @@ Payloads (grammar of lean/UPVerif/Drv/C31.lean):
                 of the refine loop when the case was generated: status of the underlying planner on the relaxed
                 problem, verdict of the real validator on the mapped-back plan (T/F, `_` when no plan) and the
                 interpreted-function values it reported
+      the answer also carries `(changing NAME*)`: what the real InterpretedFunctionsRemover._find_changing_fluents returns
+      for the problem (sorted names) - the model computes it from PROBLEM (Core/IFChanging.lean)
+
+  (ifchg PROBLEM)
+      only `_find_changing_fluents` is run (no planning): -> (changing NAME*)
 """
 import itertools
+import signal
 import sys
 import warnings
 from collections import OrderedDict, deque
@@ -49,7 +55,8 @@ from upx import Ctx, q2s
 
 ID = "C31"
 GEN = []
-CORR_NAME = "status-chosen-subset-and-call-sequence"
+EXTRA_PROPS = ["UPVerif.Props.C31Closure"]
+CORR_NAME = "status-chosen-subset-call-sequence-and-changing-fluents"
 RULE = ("(a) oversubscription: finite problems (2 Boolean fluents, bq(L) over 2 objects, two int[0,3] counters; 1-4 actions with "
         "0-1 parameters, literal/comparison/disjunctive preconditions, assign/increase/decrease/conditional effects), 0-1 hard goals "
         "and 0-4 DISTINCT oversubscription goals (literals, their negations, conjunctions that imply one another, comparisons) "
@@ -65,9 +72,20 @@ RULE = ("(a) oversubscription: finite problems (2 Boolean fluents, bq(L) over 2 
         "'interpreted_functions_planning[c31bfs]' (the breadth-first planner refuses problems that still contain interpreted "
         "functions); cases decided in the first iteration are thinned out (kept with probability 1/4); ~20% with a scripted "
         "incomplete answer at the 1st-3rd call. "
+        "(c) dependency chains (ChainGen): 4 int[0,3] and 3 Boolean fluents; 1-2 interpreted-function effects x := f(arg) / b := gb(arg) / "
+        "b := h(arg,arg') / b := hl(l) / b := (f(arg) <= k) with arg a constant, a never-written fluent or an earlier chain fluent; "
+        "behind each a chain of 0-3 effects WITHOUT interpreted function that depend on the previous fluent (numeric copy y := x, "
+        "Boolean value reading it b := (x = k) / b' := not b, conditional effect whose CONDITION reads it, a link reading the ends of "
+        "two chains); the effects are distributed over 1..n actions in three declaration orders (every dependent BEFORE what it depends "
+        "on - one more fluent per sweep -, sources first, random); optional precondition on a chain fluent, reset action (chain fluent := "
+        "constant), alternative interpreted-function effect on the head of a chain; the goal (or the precondition of a later action that "
+        "sets the goal flag) asks for a value of the LAST (sometimes a middle) chain fluent that is reachable in the original problem, "
+        "preferably one NOT reachable when the interpreted-function effects are deleted (needs the real value); 10% scripted. "
+        "(c') `ifchg` cases, only _find_changing_fluents is run: the structures of (c) and wide random effects (arithmetic, increase/"
+        "decrease, conditional effects on all fluents, bq(p0) targets, nested applications, interpreted functions in conditions). "
         "Non-trivial = (a, a') at least 2 oversubscription goals and at least 2 queries to the underlying planner, or a scripted "
-        "incomplete answer that was actually asked; (b) at least one refinement (a relaxed plan rejected by the validator) or a "
-        "scripted answer reached.")
+        "incomplete answer that was actually asked; (b, c) at least one refinement (a relaxed plan rejected by the validator), a "
+        "scripted answer reached, or (b, c, c') a fluent that depends on an interpreted function only THROUGH another fluent.")
 ASSUMPTIONS = [
     "timeout=None, heuristic=None (the time bookkeeping of both _solve methods is not modelled; nothing about time-outs of the "
     "meta-engines themselves is claimed)",
@@ -82,8 +100,15 @@ ASSUMPTIONS = [
     "interpreted functions occur in action preconditions and in effect VALUES (the two places InterpretedFunctionsRemover "
     "rewrites); 4% of the cases also put one in a goal or in an effect CONDITION, which the remover leaves in place although the "
     "planner's supported kind admits them (open finding D-C31-unremoved-ifun)",
-    "no conditional effects on the bounded integer fluents: a false conditional effect on a bounded fluent makes the real "
-    "simulator raise AssertionError in is_applicable (finding D-C02a, owned by C02), which would crash the breadth-first planner",
+    "no conditional effects on the bounded integer fluents in the cases that are SOLVED: a false conditional effect on a bounded "
+    "fluent makes the real simulator raise AssertionError in is_applicable (finding D-C02a, owned by C02), which would crash the "
+    "breadth-first planner (so a dependency chain enters the Boolean fluents through values/conditions and never returns to the "
+    "numeric ones; the `ifchg` cases, where nothing is simulated, have conditional effects on every fluent)",
+    "chain fluents of the dependency-chain cases are only copied / compared / reset, never incremented (arithmetic on a bounded "
+    "fluent whose value is unknown: open finding D-C31-stale-bounded-value)",
+    "the theorem C31_unchanging_independent excludes (hypothesis TargetsPlain) interpreted functions in effect conditions (open finding "
+    "D-C31-unremoved-ifun) and effect targets whose ARGUMENTS contain an interpreted function or read a changing fluent; no generated "
+    "case has a fluent application as argument of an effect target",
     "all fluents have initial values; state spaces are finite (bounded integers, at most 1500 states), so breadth-first search is exact",
     "the underlying planner never returns INTERMEDIATE from solve() (it is the status of callback reports only)",
     "the oracle demands what the statement demands: returned plans valid (real SequentialPlanValidator and, independently, the "
@@ -95,8 +120,11 @@ MODELLED = [
     "modelled by hand (tied by correspondence): OversubscriptionPlanner._solve (powerset, weight sum, stable descending sort, "
     "exact-subset goal encoding, status logic) and InterpretedFunctionsPlanner._solve (refine loop, status logic, knowledge update, "
     "no-progress error)",
+    "modelled by hand (tied by correspondence on every `ifp` and `ifchg` case: sorted names of the returned set): "
+    "InterpretedFunctionsRemover._find_changing_fluents incl. its while loop with the two length counters, "
+    "InterpretedFunctionsExtractor.get / FreeVarsExtractor.get as used there, for instantaneous actions",
     "abstract parameters of the model, sampled not verified: the underlying planner (here: exact BFS over UPSequentialSimulator / "
-    "a table-driven stub), InterpretedFunctionsRemover (assumed to yield a relaxation for every reachable knowledge set; checked "
+    "a table-driven stub), the rest of InterpretedFunctionsRemover (assumed to yield a relaxation for every reachable knowledge set; checked "
     "end-to-end by the oracle against exhaustive search of the ORIGINAL problem; known to fail for nested applications and for "
     "arithmetic on unknown bounded fluents: open findings), SequentialPlanValidator (C03), Problem.clone/add_goal/add_timed_goal, "
     "itertools.combinations/chain, list.sort stability, dict.update",
@@ -512,6 +540,30 @@ def enc_const(c):
     return str(c)
 
 
+class Hung(Exception):
+    pass
+
+
+HUNG = [False]      # set once the real code did not come back (a broken loop condition): later calls are not attempted
+
+
+class Watchdog:
+    """SIGALRM guard around calls into the real remover / planner: a changed library must be reported, not waited for"""
+
+    def __init__(self, seconds):
+        self.seconds = seconds
+
+    def __enter__(self):
+        def fire(signum, frame):
+            raise Hung()
+        self.old = signal.signal(signal.SIGALRM, fire)
+        signal.alarm(self.seconds)
+
+    def __exit__(self, *a):
+        signal.alarm(0)
+        signal.signal(signal.SIGALRM, self.old)
+
+
 def run_ifp(payload):
     P, ctx = build(payload)
     script = {int(i): st for i, st in section(payload, "script")}
@@ -519,8 +571,14 @@ def run_ifp(payload):
     err = None
     with Recording() as rec:
         try:
-            with planner(ctx.env, "interpreted_functions_planning", decide=lambda p, i: script.get(i), log=log) as pl:
-                res = pl.solve(P)
+            if HUNG[0]:
+                raise Hung()
+            with Watchdog(60):
+                with planner(ctx.env, "interpreted_functions_planning", decide=lambda p, i: script.get(i), log=log) as pl:
+                    res = pl.solve(P)
+        except Hung:
+            HUNG[0] = True
+            res, err = None, "Hung"
         except Exception as e:
             res, err = None, type(e).__name__
     steps, vi = [], 0
@@ -535,6 +593,19 @@ def run_ifp(payload):
     return P, ctx, res, err, steps
 
 
+def real_changing(P):
+    """what the REAL InterpretedFunctionsRemover._find_changing_fluents answers for the problem (names, sorted)"""
+    from unified_planning.engines.compilers.interpreted_functions_remover import InterpretedFunctionsRemover
+    if HUNG[0]:
+        return ["did-not-return"]
+    try:
+        with Watchdog(10):
+            return sorted(f.name for f in InterpretedFunctionsRemover()._find_changing_fluents(P))
+    except Hung:
+        HUNG[0] = True
+        return ["did-not-return"]
+
+
 def ifp_answer(payload):
     P, ctx, res, err, steps = run_ifp(payload)
     if err is not None:
@@ -544,7 +615,14 @@ def ifp_answer(payload):
         if res.plan is not None:
             got = "valid" if run_plan(P, res.plan) is not None else "invalid"
         out = ["done", res.status.name, got]
-    return [out, ["steps"] + steps]
+    return [out, ["steps"] + steps, ["changing"] + real_changing(P)]
+
+
+def ifchg_answer(payload):
+    ps = payload[1]
+    types = [(n, None if f == "_" else f) for n, f in upp.get(ps, "types")]
+    P, ctx = upp.build_problem(ps, Ctx(types))
+    return ["changing"] + real_changing(P)
 
 
 def impl(payload):
@@ -552,6 +630,8 @@ def impl(payload):
         return oversub_answer(payload)
     if payload[0] == "ifp":
         return ifp_answer(payload)
+    if payload[0] == "ifchg":
+        return ifchg_answer(payload)
     if payload[0] == "toversub":
         return toversub_answer(payload)
     return "bad-case"
@@ -926,6 +1006,272 @@ class Gen:
         return c
 
 
+# ------------------------------------------------------------------------------------------------
+# (c) dependency chains behind interpreted-function effects
+# ------------------------------------------------------------------------------------------------
+
+FLC = dict(FL)
+FLC.update({"e": ["e", I03, []], "k": ["k", I03, []], "b2": ["b2", "bool", []]})
+
+
+def _partition(r, items):
+    """partition of `items` (given sources-before-dependents) into non-empty groups = actions, in one of three declaration
+    orders: every dependent BEFORE what it depends on (a sweep over the effects then finds one more fluent per pass),
+    sources first (one pass suffices), or random"""
+    items = list(items)
+    mode = r.choice(["reverse", "reverse", "random", "random", "forward"])
+    k = r.randint(1, len(items))
+    if mode == "random":
+        r.shuffle(items)
+        groups = [[] for _ in range(k)]
+        for i, it in enumerate(items):
+            groups[i if i < k else r.randrange(k)].append(it)
+        r.shuffle(groups)
+        for g in groups:
+            r.shuffle(g)
+        return groups
+    if mode == "reverse":
+        items.reverse()
+    cuts = sorted(r.sample(range(1, len(items)), k - 1))
+    return [items[a:b] for a, b in zip([0] + cuts, cuts + [len(items)])]
+
+
+class ChainGen:
+    """x := f(seed); y := x; z := y ... : fluents that depend on an interpreted-function result only THROUGH other fluents
+    (values that read them, conditional effects whose condition reads them), in every declaration order of the actions and
+    of the effects inside an action, with a goal / a later precondition that needs the REAL value of a dependent fluent."""
+
+    def __init__(self, rng):
+        self.r = rng
+
+    def fl(self, n):
+        return ["fl", FLC[n]]
+
+    def arg(self, static, nodes):
+        """argument of an interpreted function: a constant, a never-written fluent, or (rarely) an earlier chain fluent"""
+        r = self.r
+        k = r.random()
+        nn = [n for n in nodes if FLC[n][1] != "bool"]
+        if nn and k < 0.12:
+            return self.fl(r.choice(nn))
+        if static and k < 0.6:
+            return self.fl(r.choice(static))
+        return ["i", str(r.choice([0, 1, 2, 3]))]
+
+    def source(self, x, static, nodes):
+        r = self.r
+        if FLC[x][1] != "bool":
+            v = ["ifun", FUNS["f"], self.arg(static, nodes)]
+        else:
+            j = r.random()
+            if j < 0.45:
+                v = ["ifun", FUNS["gb"], self.arg(static, nodes)]
+            elif j < 0.65:
+                v = ["ifun", FUNS["h"], self.arg(static, nodes), self.arg(static, nodes)]
+            elif j < 0.8:
+                v = ["ifun", FUNS["hl"], ["o", r.choice(["l1", "l2"]), "L"]]
+            else:
+                v = [r.choice(["le", "lt", "eq"]), ["ifun", FUNS["f"], self.arg(static, nodes)], ["i", str(r.choice([0, 1, 2, 3]))]]
+        return ["eff", "assign", self.fl(x), v, ["b", "T"], []]
+
+    def reads(self, prev):
+        """a Boolean expression whose value depends on the fluent `prev`"""
+        r = self.r
+        if FLC[prev][1] == "bool":
+            return self.fl(prev) if r.random() < 0.6 else ["not", self.fl(prev)]
+        a, b = self.fl(prev), ["i", str(r.choice([0, 1, 2, 3]))]
+        op = r.choice(["eq", "eq", "le", "lt"])
+        return [op, a, b] if r.random() < 0.7 else [op, b, a]
+
+    def link(self, prev, y):
+        """an effect on `y` without interpreted function that depends on `prev`"""
+        r = self.r
+        if FLC[y][1] != "bool":
+            return ["eff", "assign", self.fl(y), self.fl(prev), ["b", "T"], []]       # numeric copy
+        if r.random() < 0.5:
+            return ["eff", "assign", self.fl(y), self.reads(prev), ["b", "T"], []]    # the VALUE reads prev
+        return ["eff", "assign", self.fl(y), ["b", r.choice(["T", "T", "F"])], self.reads(prev), []]   # the CONDITION reads prev
+
+    def structure(self):
+        """-> (fluents section, effects, chains) ; chains = list of node lists (source first)"""
+        r = self.r
+        nums, bools = ["c", "d", "e", "k"], ["b0", "b1", "b2"]
+        r.shuffle(nums)
+        r.shuffle(bools)
+        static = [nums.pop()] if r.random() < 0.6 else []
+        pool = {"n": nums, "b": bools}
+        effs, chains, nodes = [], [], []
+        for s in range(r.choice([1, 1, 1, 2])):
+            kind = r.choice(["n", "n", "b"])
+            if not pool[kind]:
+                kind = "b" if kind == "n" else "n"
+            if not pool[kind] or (kind == "b" and len(pool["b"]) == 1):
+                break                                   # keep one Boolean for the goal flag
+            x = pool[kind].pop()
+            effs.append(self.source(x, static, nodes))
+            chain = [x]
+            nodes.append(x)
+            prev = x
+            for _ in range(r.choice([1, 2, 2, 3]) if s == 0 else r.choice([0, 1, 1])):
+                kind = r.choice(["n", "b"]) if FLC[prev][1] != "bool" else "b"
+                if not pool[kind] or (kind == "b" and len(pool["b"]) == 1):
+                    kind = "n" if (kind == "b" and FLC[prev][1] != "bool") else kind
+                    if not pool[kind] or (kind == "b" and len(pool["b"]) == 1):
+                        break
+                y = pool[kind].pop()
+                # sometimes the link also reads the end of the OTHER chain (two interpreted-function effects feeding one fluent)
+                e = self.link(prev, y)
+                if chains and FLC[y][1] == "bool" and r.random() < 0.4:
+                    e[4] = ["and", e[4], self.reads(chains[0][-1])] if e[4] != ["b", "T"] else self.reads(chains[0][-1])
+                effs.append(e)
+                chain.append(y)
+                nodes.append(y)
+                prev = y
+            chains.append(chain)
+        return static, pool, effs, chains
+
+    def problem(self):
+        r = self.r
+        static, pool, effs, chains = self.structure()
+        if not chains:
+            return None
+        actions = []
+        for i, grp in enumerate(_partition(r, effs)):
+            pre = []
+            if r.random() < 0.25:
+                # a precondition on a chain fluent (its real value is needed to apply a later link)
+                pre.append(self.reads(r.choice(r.choice(chains))))
+            actions.append(["action", f"a{i}", [], ["pre"] + pre, ["effs"] + grp])
+        if r.random() < 0.3:
+            # a reset: a chain fluent gets a known constant again
+            n = r.choice(r.choice(chains))
+            v = ["b", r.choice(["T", "F"])] if FLC[n][1] == "bool" else ["i", str(r.choice([0, 1, 2, 3]))]
+            actions.insert(r.randrange(len(actions) + 1), ["action", "rs", [], ["pre"], ["effs", ["eff", "assign", self.fl(n), v, ["b", "T"], []]]])
+        if r.random() < 0.35:
+            # an ALTERNATIVE interpreted-function effect on the head of a chain (the planner has to find out which one helps)
+            x = r.choice(chains)[0]
+            actions.insert(r.randrange(len(actions) + 1), ["action", "alt", [], ["pre"], ["effs", self.source(x, static, [])]])
+        fluents = [[ref, ["b", r.choice(["F", "F", "T"])] if ref[1] == "bool" else ["i", str(r.choice([0, 0, 1, 2, 3]))]]
+                   for ref in FLC.values()]
+        return static, pool, chains, fluents, actions
+
+    def case(self, solve=True):
+        r = self.r
+        g = Gen(r, ifuns=True)
+        built = self.problem()
+        if built is None:
+            return None
+        static, pool, chains, fluents, actions = built
+        funs = g.fun_tables()
+        # choose what is asked of the LAST fluent of a chain (sometimes of a middle one) from what is really reachable,
+        # preferring values that are reachable ONLY through the result of an interpreted function (not reachable in the
+        # problem whose interpreted-function effects are deleted, i.e. from stale values)
+        probe = ["ifp", g.pack("ifp", fluents, [], actions, [], []), ["funs"] + funs, ["script"], ["trace"]]
+        P, ctx = build(probe)
+        sim, states = explore(P, False)
+        stale_actions = [a[:4] + [[x for x in a[4] if x == "effs" or "ifun" not in sexp.dumps(x[3])]] for a in actions]
+        P0, ctx0 = build(["ifp", g.pack("ifp", fluents, [], stale_actions, [], []), ["funs"] + funs, ["script"], ["trace"]])
+        sim0, states0 = explore(P0, False)
+        chain = chains[0] if r.random() < 0.8 else r.choice(chains)
+        z = chain[-1] if r.random() < 0.8 else r.choice(chain)
+        zexp, zexp0 = ctx.expr(self.fl(z)), ctx0.expr(self.fl(z))
+        init = enc_const(states[0].get_value(zexp))
+        vals = sorted({enc_const(s.get_value(zexp)) for s in states})
+        stale = {enc_const(s.get_value(zexp0)) for s in states0}
+        only_if = [v for v in vals if v not in stale]
+        others = [v for v in vals if v != init]
+        if FLC[z][1] == "bool":
+            universe = ["T", "F"]
+            atom = lambda v: self.fl(z) if v == "T" else ["not", self.fl(z)]
+        else:
+            universe = ["0", "1", "2", "3"]
+            atom = lambda v: ["eq", self.fl(z), ["i", v]]
+        if not only_if and r.random() < 0.75:
+            return None                                  # thin out the cases that do not need the interpreted function
+        k = r.random()
+        if only_if and k < 0.8:
+            want = r.choice(only_if)                    # solvable, and only with the real value of the interpreted function
+        elif others and k < 0.9:
+            want = r.choice(others)                     # solvable, maybe from stale values alone
+        elif k < 0.96:
+            want = r.choice(universe)                    # anything (maybe unreachable: the problem is unsolvable)
+        else:
+            want = init
+        goal = atom(want)
+        if pool["b"] and r.random() < 0.4:
+            # the value is needed by a LATER PRECONDITION, the goal is a flag set by that action
+            flag = pool["b"][-1]
+            fluents = [[ref, ["b", "F"] if ref[0] == flag else d] for ref, d in fluents]
+            actions.insert(r.randrange(len(actions) + 1),
+                           ["action", "fin", [], ["pre", goal], ["effs", ["eff", "assign", self.fl(flag), ["b", "T"], ["b", "T"], []]]])
+            goals = [self.fl(flag)]
+        else:
+            goals = [goal]
+        ps = g.pack("ifp", fluents, [], actions, goals, [])
+        if not solve:
+            return ["ifchg", ps]
+        script = []
+        if r.random() < 0.1:
+            script.append([str(r.choice([0, 1])), r.choice(["TIMEOUT"] + INCOMPLETE)])
+        return with_trace(["ifp", ps, ["funs"] + funs, ["script"] + script, ["trace"]])
+
+
+def wide_effects_case(rng):
+    """(ifchg PROBLEM): only `_find_changing_fluents` is run, so the shapes may be wider than what the planner is run on:
+    random effects over 7 fluents with arithmetic, increase/decrease, conditional effects on every fluent, parametrised
+    `bq(p0)` targets, interpreted functions anywhere in values"""
+    g = Gen(rng, ifuns=True, nested=rng.random() < 0.2)
+    names = list(FLC)
+
+    def num():
+        k = rng.random()
+        if k < 0.2:
+            return ["ifun", FUNS["f"], num() if rng.random() < 0.3 else ["i", "1"]]
+        if k < 0.75:
+            return ["fl", FLC[rng.choice(["c", "d", "e", "k"])]]
+        if k < 0.85:
+            return ["plus", num(), ["i", "1"]]
+        return ["i", str(rng.choice([0, 1, 2, 3]))]
+
+    def boolean(params):
+        k = rng.random()
+        if k < 0.15:
+            return ["ifun", FUNS["gb"], num()]
+        if k < 0.45:
+            return ["fl", FLC[rng.choice(["b0", "b1", "b2"])]]
+        if k < 0.55:
+            return ["fl", FLC["bq"], g.lterm(params)]
+        if k < 0.8:
+            return [rng.choice(["le", "lt", "eq"]), num(), num()]
+        if k < 0.9:
+            return ["not", boolean(params)]
+        return [rng.choice(["and", "or"]), boolean(params), boolean(params)]
+    actions = []
+    for i in range(rng.choice([1, 2, 3, 3, 4, 5])):
+        params = [["p0", U("L")]] if rng.random() < 0.3 else []
+        effs, seen = [], set()
+        for _ in range(rng.choice([1, 2, 2, 3, 4])):
+            n = rng.choice(names)
+            tgt = ["fl", FLC[n], g.lterm(params)] if n == "bq" else ["fl", FLC[n]]
+            if sexp.dumps(tgt) in seen or (n == "bq" and any(x[2][1][0] == "bq" for x in effs)):
+                continue
+            seen.add(sexp.dumps(tgt))
+            kind = "assign"
+            if FLC[n][1] == "bool":
+                v = boolean(params) if rng.random() < 0.6 else ["b", rng.choice(["T", "F"])]
+            else:
+                v = num()
+                if rng.random() < 0.2:
+                    kind = rng.choice(["increase", "decrease"])
+            c = ["b", "T"] if rng.random() < 0.55 else boolean(params)
+            effs.append(["eff", kind, tgt, v, c, []])
+        if effs:
+            actions.append(["action", f"a{i}", params, ["pre"], ["effs"] + effs])
+    rng.shuffle(actions)
+    fluents = [[ref, ["b", "F"] if ref[1] == "bool" else ["i", "0"]] for ref in FLC.values()]
+    return ["ifchg", g.pack("ifp", fluents, [], actions, [], [])]
+
+
 def with_trace(payload):
     P, ctx, res, err, steps = run_ifp(payload)
     if err is not None and err != "UPException":
@@ -957,11 +1303,23 @@ def toversub_case(rng):
 def gen_case(rng, want):
     if want == "toversub":
         return toversub_case(rng)
+    for _ in range(200 if want == "ifchg-wide" else 0):
+        c = wide_effects_case(rng)
+        try:
+            ifchg_answer(c)        # the model classes reject ill-typed values (c := 3 + 1 on int[0,3], gb(3 + 1))
+        except (up.exceptions.UPException, AssertionError):
+            continue
+        return c
     for _ in range(200):
         g = Gen(rng, ifuns=(want == "ifp"), nested=(want == "ifp" and rng.random() < 0.08),
                 stray=(want == "ifp" and rng.random() < 0.04))
         try:
-            c = g.oversub_case() if want == "oversub" else g.ifp_case()
+            if want == "chain":
+                c = ChainGen(rng).case()
+            elif want == "ifchg-chain":
+                c = ChainGen(rng).case(solve=False)
+            else:
+                c = g.oversub_case() if want == "oversub" else g.ifp_case()
         except TooLarge:
             continue
         except (up.exceptions.UPException, AssertionError):
@@ -972,15 +1330,49 @@ def gen_case(rng, want):
 
 
 def cases(rng, tier):
-    n_os, n_if = (100, 70) if tier == "quick" else (2000, 900)
+    n_os, n_if, n_chain, n_chg = (100, 70, 45, 60) if tier == "quick" else (2000, 900, 700, 1500)
     for i in range(n_os // 3):
         yield gen_case(rng, "toversub")       # cheap (stub planner): all up front
+    for i in range(n_chg):
+        yield gen_case(rng, "ifchg-wide" if i % 3 else "ifchg-chain")     # cheap (no planning)
+    for i in range(n_chain):
+        c = gen_case(rng, "chain")
+        if c is not None:
+            yield c
     for i in range(n_os + n_if):
         # interleave the two families so that a budget cut keeps both
         want = "ifp" if (i * n_if) // (n_os + n_if) != ((i + 1) * n_if) // (n_os + n_if) else "oversub"
         c = gen_case(rng, want)
         if c is not None:
             yield c
+
+
+def search(rng, tier):
+    """failing-input search after a broken obligation: the chain family first (a break of the changing-fluents
+    correspondence shows end-to-end there), then the general stream"""
+    for i in range(400):
+        c = gen_case(rng, "chain")
+        if c is not None:
+            yield c
+    yield from cases(rng, "thorough")
+
+
+def dep_profile(ps):
+    """(directly interpreted-function-assigned fluents, least fixpoint, number of sweeps over the effects in DECLARATION
+    order until nothing is added, size after the first sweep) - harness-side, from the documented intent"""
+    direct = {e[2][1][0] for a in upp.get(ps, "actions") for e in a[4][1:] if "ifun" in sexp.dumps(e[3])}
+    ch, sweeps, first = set(), 0, None
+    while True:
+        n = len(ch)
+        for a in upp.get(ps, "actions"):
+            for e in a[4][1:]:
+                if "ifun" in sexp.dumps(e[3]) or (_reads(e[3], set()) | _reads(e[4], set())) & ch:
+                    ch.add(e[2][1][0])
+        sweeps += 1
+        if first is None:
+            first = len(ch)
+        if len(ch) == n:
+            return direct, ch, sweeps, first
 
 
 def nontrivial(payload, ans):
@@ -994,8 +1386,12 @@ def nontrivial(payload, ans):
         calls = ans[2][1:]
         scripted = {m for m, _ in section_at(payload, "script")}
         return (len(section_at(payload, "weights")) >= 2 and len(calls) >= 2) or bool(scripted & set(calls))
+    direct, ch, sweeps, first = dep_profile(payload[1])
+    if payload[0] == "ifchg":
+        return len(ch) > len(direct)          # some fluent depends on an interpreted function only through another fluent
     steps = ans[1][1:]
-    return any(s[2] == "F" for s in steps) or any(s[1] in INCOMPLETE or s[1] == "TIMEOUT" for s in steps)
+    return (any(s[2] == "F" for s in steps) or any(s[1] in INCOMPLETE or s[1] == "TIMEOUT" for s in steps)
+            or len(ch) > len(direct))
 
 
 def stats(payload, ans):
@@ -1016,9 +1412,21 @@ def stats(payload, ans):
         if not section(payload, "reach"):
             t.append("os:unsolvable")
         return t
-    t = ["if:" + (ans[0][1] if ans[0][0] == "done" else "raised:" + ans[0][1]), f"if:iterations={min(len(ans[1]) - 1, 9)}"]
+    direct, ch, sweeps, first = dep_profile(payload[1])
+    t = [f"chg:direct={min(len(direct), 4)}", f"chg:indirect={min(len(ch) - len(direct), 4)}", f"chg:sweeps={min(sweeps, 6)}"]
+    if first < len(ch):
+        t.append("chg:first-sweep-incomplete")
+        if first <= 1:
+            t.append("chg:first-sweep-finds<=1-and-incomplete")
+    if payload[0] == "ifchg":
+        return ["chg-only"] + t
+    t += ["if:" + (ans[0][1] if ans[0][0] == "done" else "raised:" + ans[0][1]), f"if:iterations={min(len(ans[1]) - 1, 9)}"]
     if section(payload, "script"):
         t.append("if:scripted")
+    dep = ch - direct
+    if dep and (_reads(upp.get(payload[1], "goals"), set()) | {x for a in upp.get(payload[1], "actions")
+                                                               for x in _reads(a[3], set())}) & dep:
+        t.append("if:goal-or-precondition-reads-indirectly-dependent-fluent")
     return t
 
 
@@ -1039,6 +1447,8 @@ def shrink(payload):
 
     def rebuild(nps):
         try:
+            if payload[0] == "ifchg":
+                return ["ifchg", nps]
             if payload[0] == "oversub":
                 p0 = ["oversub", nps, ["reach"], ["script"]]
                 P, ctx = build(p0)
@@ -1099,10 +1509,15 @@ MANIFEST = {
                    "accepted by the validator on the ORIGINAL problem, a plan-less result repeats the underlying planner's status for a "
                    "reachable knowledge set, the refine loop terminates (knowledge grows strictly within a finite universe); completeness "
                    "is proved only UNDER two named assumptions on the unmodelled remover/validator (relaxation, progress). "
+                   "Props/C31Closure.lean: the remover's _find_changing_fluents (which fluents get an `_is_unknown` tracking fluent) is "
+                   "modelled with its loop and proved to terminate in a fixpoint that is EXACTLY the set of fluents depending on an "
+                   "interpreted-function result through effect chains of any length in any declaration order, and the values of all "
+                   "other fluents are proved independent of the interpreted functions along every action sequence. "
                    "The models are tied to the code by a differential correspondence check through the real factory with an exact "
                    "breadth-first planner over the real simulator (and scripted incomplete variants; a table-driven stub for timed goals), "
                    "plus the property's own oracle (exhaustive search of the original problem, real validator)."),
-    "level_note": ("Partial: `C31_if_complete_partial` assumes RemoverRelaxes and ValidationProgress, which are only sampled (oracle) and are "
+    "level_note": ("Partial: `C31_if_complete_partial` assumes RemoverRelaxes and ValidationProgress, which are only sampled (oracle; of the "
+                   "remover only _find_changing_fluents is modelled and proved, C31Closure, with the restriction TargetsPlain) and are "
                    "known to fail on three input shapes (open findings D-C31-nested-ifun, D-C31-stale-bounded-value, D-C31-unremoved-ifun); "
                    "validity of returned plans reduces to the validator's correctness (C03). Requires the fixes in "
                    "notes/patches/C31-1..3. Trusted: Lean kernel; axioms propext, Classical.choice, Quot.sound; the correspondence "
